@@ -4,7 +4,8 @@ import random
 from .. import bootstrap  # noqa: F401
 from ..gen import Gen
 from ..prog import execute
-from ..probe import Session
+from ..probe import Session  # noqa: F401
+from . import common
 
 PROPERTY = 'C03'
 LEVEL = 'fault_enumeration'
@@ -54,78 +55,20 @@ def build(case):
     return Gen(rng, **kwargs).program(), rng
 
 
-def one_run(program, plan=None):
-    sess = Session()
+def relevant(mechanism):
+    """C03 decides with everything except the scope-content/containment/lifecycle monitors"""
+    return not mechanism.startswith(('c04:', 'c05:', 'c06:', 'c07:'))
 
-    def prepare(env):
-        if plan:
-            for n, name in plan:
-                def action(s, name=name, env=env):
-                    task = env.tasks.get(name)
-                    if task is not None:
-                        s.stats['injected'] += 1
-                        task.cancel('injected')
-                    else:
-                        s.stats['inject_no_victim'] += 1
-                sess.at_boundary(n, action)
-    env, outcome = execute(program, sess, prepare)
-    return env, sess
+
+def nontrivial(env, sess):
+    labels = {label for label, _ in sess.trace}
+    return len(labels) >= 2 and bool(sess.stats.get('exceptions_observed') or env.ended_scopes)
+
+
+def one_run(program, plan=None):
+    return common.one_run(program, plan)
 
 
 def run_case(case):
     program, rng = build(case)
-    if case.get('plan') is not None:
-        runs = [case['plan']]
-    else:
-        runs = [None]
-    violations = []
-    sigs = []
-    stats = {'activations': 0, 'owner_checked': 0, 'exceptions_observed': 0, 'injected': 0,
-             'outcomes': {}, 'ops': {}}
-    evals = 0
-    sample = None
-    queue = list(runs)
-    first = True
-    while queue:
-        plan = queue.pop(0)
-        env, sess = one_run(program, plan)
-        evals += 1
-        stats['activations'] += sess.n
-        for key in ('owner_checked', 'exceptions_observed', 'injected', 'due_checked',
-                    'scheduled', 'inject_no_victim', 'spawn_refused'):
-            stats[key] = stats.get(key, 0) + sess.stats.get(key, 0)
-        for key, value in sess.stats.items():
-            if key.startswith('op:'):
-                stats['ops'][key[3:]] = stats['ops'].get(key[3:], 0) + value
-        out = env.outcome if env.outcome in ('ok', 'abort') else 'exception'
-        stats['outcomes'][out] = stats['outcomes'].get(out, 0) + 1
-        labels = {label for label, _ in sess.trace}
-        if len(labels) >= 2 and (sess.stats.get('exceptions_observed') or env.ended_scopes):
-            sigs.append(sess.signature())
-        for vio in sess.violations:
-            vio = dict(vio)
-            vio['case'] = dict(case, plan=plan)
-            violations.append(vio)
-        if first:
-            first = False
-            if case.get('plan') is None:
-                total = sess.n
-                names = sorted(env.tasks)
-                if names and total:
-                    if case['tier'] == 'thorough':
-                        victims = rng.sample(names, min(3, len(names)))
-                        for name in victims:
-                            for n in range(1, total + 2):
-                                queue.append([[n, name]])
-                        for _ in range(min(10, total)):
-                            queue.append([[rng.randint(1, total + 1), rng.choice(names)],
-                                          [rng.randint(1, total + 1), rng.choice(names)]])
-                    else:
-                        for _ in range(min(6, total)):
-                            queue.append([[rng.randint(1, total + 1), rng.choice(names)]])
-            if sample is None:
-                sample = {'program': program, 'outcome': env.outcome,
-                          'events': [list(map(str, ev)) for ev in sess.events[:25]],
-                          'activations': sess.n}
-    return {'evals': evals, 'sigs': sigs, 'stats': stats, 'violations': violations,
-            'sample': sample if case['index'] < 16 else None}
+    return common.explore(case, program, rng, relevant, nontrivial)
